@@ -292,7 +292,7 @@ LATTICE = [x * 0.5 for x in range(-8, 9)]
 class GenCfg(object):
     def __init__(self, vars=('a', 'b'), ops=None, max_depth=4, max_bound=4, strict_sorts=False,
                  p_reuse=0.0, lattice=None, top_formula=True, min_bound_width=0, allow_const_only=False,
-                 p_const_leaf=0.35, p_loose=0.08, pred_var_const=False, hi_min=0, p_near=0.0):
+                 p_const_leaf=0.35, p_loose=0.08, pred_var_const=False, hi_min=0, p_near=0.0, p_same_bounds=0.2):
         self.vars = list(vars)
         self.ops = set(ALL_OPS if ops is None else ops)
         self.max_depth = max_depth
@@ -307,6 +307,7 @@ class GenCfg(object):
         self.pred_var_const = pred_var_const  # every predicate is  variable CMP constant
         self.hi_min = hi_min
         self.p_near = p_near                  # a re-used sub-tree is sometimes a near copy: one constant differs in the 7th decimal
+        self.p_same_bounds = p_same_bounds    # an interval is sometimes the very interval of an earlier (different) operator
 
 
 class Gen(object):
@@ -315,6 +316,7 @@ class Gen(object):
         self.cfg = cfg
         self.pool_f = []
         self.pool_t = []
+        self.used_bounds = []
 
     # ---- helpers
     def _pick(self, seq):
@@ -324,7 +326,14 @@ class Gen(object):
         return [o for o in group if o in self.cfg.ops]
 
     def bound(self):
+        b = self._bound()
+        self.used_bounds.append(b)
+        return b
+
+    def _bound(self):
         mb = self.cfg.max_bound
+        if self.used_bounds and self.rng.random() < self.cfg.p_same_bounds:
+            return self._pick(self.used_bounds)
         r = self.rng.random()
         if r < 0.15:
             lo = hi = self.rng.randint(0, mb)
